@@ -189,6 +189,17 @@ type DRun struct {
 	owned map[string]bool
 	// cfg is the configuration of the last Init
 	cfg lz.DecoderConfig
+	// maxB is the largest BufferSize of the history: Init on a used buffer
+	// keeps its capacity, which then counts as BufferSize
+	maxB int
+}
+
+// sizeLimit is the length beyond which nothing can have been stored.
+func (r *DRun) sizeLimit() int64 {
+	if r.B > r.maxB {
+		r.maxB = r.B
+	}
+	return int64(2*r.maxB) + 1<<16
 }
 
 // reinitCfg returns the configuration a reinit operation asks for and the
@@ -378,6 +389,7 @@ func RunDecoderHistory(dc *DCase, st *core.Stats, owned map[string]bool) *DFail 
 	}
 	for i := range dc.Ops {
 		op := &dc.Ops[i]
+		r.sizeLimit() // records the largest geometry so far
 		if dc.SUT == "buffer" {
 			r.stepBuffer(i, op)
 		} else {
@@ -471,8 +483,8 @@ func (r *DRun) stepBuffer(i int, op *DOp) {
 			r.invariants(i, true)
 			return
 		}
-		if err == nil && int64(s.MatchLen) > int64(2*r.B)+1<<16 {
-			r.failf(i, "oversized-accepted", "oversized-accepted", "WriteMatch(m=%d) accepted by a buffer with BufferSize %d", s.MatchLen, r.B)
+		if err == nil && int64(s.MatchLen) > r.sizeLimit() {
+			r.failf(i, "oversized-accepted", "oversized-accepted", "WriteMatch(m=%d) accepted by a buffer with BufferSize %d", s.MatchLen, r.maxB)
 			return
 		}
 		switch {
@@ -683,8 +695,8 @@ func (r *DRun) afterBlock(i int, op *DOp, seqs []lz.Seq, bad int, lits []byte, s
 		}
 	}
 	for j := 0; j < k && j < len(seqs); j++ {
-		if lim := int64(2*r.B) + 1<<16; int64(seqs[j].MatchLen) > lim || int64(seqs[j].LitLen) > lim {
-			r.failf(i, "oversized-accepted", "oversized-accepted", "sequence %d %+v reported as consumed by a decoder with BufferSize %d", j, seqs[j], r.B)
+		if lim := r.sizeLimit(); int64(seqs[j].MatchLen) > lim || int64(seqs[j].LitLen) > lim {
+			r.failf(i, "oversized-accepted", "oversized-accepted", "sequence %d %+v reported as consumed by a decoder whose largest BufferSize was %d", j, seqs[j], r.maxB)
 			return
 		}
 	}
